@@ -67,7 +67,7 @@ def run(ctx):
         tv, e = src.tl1_values(ntl1)
         if e:
             uerr.append((u.name, e))
-        cl = [f"conv 0 {tid} {name} {boxed} {h}" for tid, name, boxed, h in (tv or [])]
+        cl = [f"conv {int(bool(u.san))} {tid} {name} {boxed} {h}" for tid, name, boxed, h in (tv or [])]
         co = run_lines_resilient(u.gen.exe, [], cl, timeout=600)
         # the TL2 bytes Go writes for a TL1-decoded value are the ones the model writes for it
         cm, e = model_run(ref, mv, cl, 2)
